@@ -744,6 +744,8 @@ pub type Table = std::collections::HashMap<u64, (bool, Vec<String>, CaseResult)>
 /// n-th case and write the outcomes to `<dir>/out-<i>.json`.
 pub fn worker_main(run: &Run, dir: &str, spec: &str, gen: &dyn Fn(&Run, &Targets) -> Vec<Case>, judge: &dyn Fn(&Targets, &Case) -> Outcome) -> ! {
     let (i, n) = spec.split_once('/').map(|(a, b)| (a.parse::<usize>().unwrap_or(0), b.parse::<usize>().unwrap_or(1))).unwrap_or((0, 1));
+    let dir = std::env::var("VERIF_SHARD_DIR").unwrap_or_else(|_| dir.to_string());
+    let dir = dir.as_str();
     let targets = match load_targets(dir) {
         Ok(t) => t,
         Err(e) => {
@@ -789,6 +791,9 @@ pub fn worker_main(run: &Run, dir: &str, spec: &str, gen: &dyn Fn(&Run, &Targets
 /// every case (keyed by case digest). An empty table means "evaluate in this process".
 pub fn evaluate_sharded(run: &Run, dir: &str, env_key: &str, procs: usize, targets: &Targets, cases: &[Case]) -> Table {
     let mut table: Table = Default::default();
+    // one sub-directory per parent process so that concurrent runs of the same check do not collide
+    let dir = format!("{dir}/p{}", std::process::id());
+    let dir = dir.as_str();
     let n = std::env::var("VERIF_PROCS").ok().and_then(|v| v.parse().ok()).unwrap_or(procs).max(1);
     let mut ok = save_targets(dir, targets).is_ok();
     let mut kids = vec![];
@@ -798,6 +803,7 @@ pub fn evaluate_sharded(run: &Run, dir: &str, env_key: &str, procs: usize, targe
                 match std::process::Command::new(&exe)
                     .arg(if run.quick() { "quick" } else { "thorough" })
                     .env(env_key, format!("{i}/{n}"))
+                    .env("VERIF_SHARD_DIR", dir)
                     .stdout(std::process::Stdio::null())
                     .spawn()
                 {
